@@ -52,6 +52,7 @@ def run(ctx):
                      "structure: which matcher is consulted in which order on every path and which verdict each outcome produces.")
     ctx.rule("R11.1", "event level: the whitelist test comes first and returns pass; then the ignore-files filterer rejects; an event without paths "
                       "passes; otherwise the verdict is `any` over the per-path decision")
+    ctx.also("R11.1", 'the whitelist the CLI installs is the watched files as given (shared with R12.1)')
     ctx.rule("R11.2", "per path (inside the `any` closure): the ignore patterns are consulted first and a match returns false before any filter is "
                       "consulted; every `true` comes from a filter-pattern match or an extension match; directories never satisfy an extension filter "
                       "but are still offered to the filter patterns first; the fall-through is `!filtered` with `filtered` set exactly when filters "
@@ -63,6 +64,11 @@ def run(ctx):
     try:
         from .. import evrules
         evrules.accessor(ctx, "R11.1", "paths")     # "the paths of an event" = exactly its Tag::Path tags
+    except Skip:
+        pass
+    try:
+        from . import c12 as _c12w
+        _c12w.whitelist_files(ctx, "R11.1")        # what the CLI puts on the whitelist: the watched files as given (the test below compares spellings)
     except Skip:
         pass
     try:
